@@ -231,7 +231,13 @@ def c17_6(ctx):
     ctx.check(len(st) == 1 and unparse(st[0][2]) == 'include_paths', 'dirs:options-kept', ei.site(), '-I directories are kept as given', '; '.join(unparse(s[0]) for s in st))
 
 
-RULES = [c17_1, c17_3, c17_5, c17_6]
+def c17_state(ctx):
+    """Nothing is remembered between statements / files beyond the reviewed state (rules/shared.py STATE)."""
+    from rules.shared import state_discipline
+    state_discipline(ctx, ('bespokeasm.assembler.assembly_file', 'bespokeasm.assembler.engine', 'bespokeasm.assembler.label_scope', 'bespokeasm.assembler.memory_zone'))
+
+
+RULES = [c17_1, c17_3, c17_5, c17_6, c17_state]
 
 _A = 'assembler/assembly_file.py'
 MUTANTS = [
